@@ -84,6 +84,7 @@ class Evaluator:
         self.inline = inline or set()   # callee names to evaluate recursively (one level)
         self.loops = 0
         self.calls_seen = []
+        self.inlined = set()            # functions whose bodies were evaluated at a call site
 
     # ------------------------------------------------------------------ entry
     def run(self, params, body, args, env=None):
@@ -678,6 +679,8 @@ class Evaluator:
                 for s2, i in self.ev(e["b"], s):
                     if i[0] == "lit" and isinstance(i[1], int) and 0 <= i[1] < len(v[1]):
                         yield s2, v[1][i[1]]
+                    elif i[0] == "struct" and str(i[1] or "").endswith("RangeFull"):
+                        yield s2, v          # `array[..]`: the whole array as a slice
                     else:
                         yield s2, ("index", v)
                 continue
@@ -970,6 +973,8 @@ class Evaluator:
         self._depth = getattr(self, "_depth", 0) + 1
         try:
             h = self.F.hir_fn(callee) if self._depth <= 6 else None
+            if h is not None:
+                self.inlined.add(callee)
             if h is None:
                 yield s, ("call", callee, args)
                 return
